@@ -381,7 +381,7 @@ func c06Scenarios(thorough bool) []*explore.Scenario {
 		}
 		scs = append(scs, &explore.Scenario{Name: c.Name, Quick: q, Thorough: t, Body: func(e *vsched.Exec) { c06Run(e, c) }})
 	}
-	return scs
+	return append(scs, c06OverlapScenarios()...)
 }
 
 func TestVerifC06(t *testing.T) {
